@@ -19,10 +19,11 @@ func init() { register("C08", checkC08) }
 var probeNames = []string{"getpgrp", "getppid", "getuid", "geteuid", "getgid", "getegid"}
 
 type c08Job struct {
-	label string
-	pol   *seccomp.Policy
-	flags uint32
-	nnp   bool
+	label  string
+	pol    *seccomp.Policy
+	flags  uint32
+	nnp    bool
+	unpriv bool // run the child as uid 65534 (a load without no_new_privs is then expected to fail)
 }
 
 func hashInsns(p []cbpf.Insn) string {
@@ -83,7 +84,7 @@ func c08Policies(a *refsem.Arch, tier string) []c08Job {
 		} else {
 			p.Syscalls = groups
 		}
-		jobs = append(jobs, c08Job{label, p, flags, nnp})
+		jobs = append(jobs, c08Job{label, p, flags, nnp, len(jobs)%3 == 1})
 	}
 	subsets := [][]string{{P[1]}, {P[2], P[3]}, P, {P[5], P[0]}}
 	n := 0
@@ -109,7 +110,7 @@ func c08Policies(a *refsem.Arch, tier string) []c08Job {
 	for oi, op := range allOps {
 		for arg := uint32(0); arg < 6; arg++ {
 			for vi, v := range operands {
-				if tier == "quick" && (vi+int(arg)+oi)%4 != 0 {
+				if tier == "quick" && (vi+int(arg)+oi)%2 != 0 {
 					continue
 				}
 				n++
@@ -154,6 +155,7 @@ func checkC08(tier, replay string) int {
 				Policy engine.PolJSON `json:"policy"`
 				Flags  uint32         `json:"flags"`
 				NNP    bool           `json:"nnp"`
+				Unpriv bool           `json:"unprivileged"`
 			} `json:"case"`
 		}
 		if err := readJSON(replay, &f); err != nil {
@@ -162,7 +164,7 @@ func checkC08(tier, replay string) int {
 		}
 		_, p := engine.FromJSON(f.Case.Policy)
 		var children, events, kills int64
-		c08One(ctx, a, c08Job{"replay", p, f.Case.Flags, f.Case.NNP}, 100, &children, &events, &kills)
+		c08One(ctx, a, c08Job{"replay", p, f.Case.Flags, f.Case.NNP, f.Case.Unpriv}, 100, &children, &events, &kills)
 		if ctx.NumViolations() > 0 {
 			fmt.Println("REPRODUCED")
 			return 1
@@ -183,14 +185,14 @@ func checkC08(tier, replay string) int {
 	ctx.Cov["child_processes"] = children
 	ctx.Cov["kill_process_events_observed_as_SIGSYS"] = kills
 	ctx.Cov["policies_loaded"] = len(jobs)
-	ctx.Cov["rule"] = "states = policies of probe scope S8 over {getpgrp,getppid,getuid,geteuid,getgid,getegid} (names-only with 1-2 groups and 4 actions; single conditions over 8 ops x 6 argument registers x boundary operands; AND lists, OR lists, conditional entries in two groups, kill_process behind a condition; with and without the whole remaining table as a >255-instruction allow group), each loaded by the real LoadFilter in a fresh child with flags in {0,tsync} and no_new_privs on/off; transitions = probe events: every probe syscall x every cell of the exact partition of the argument registers, issued with RawSyscall6 from the loading thread and from a second thread; the reference decision (model) is compared with errno / SIGSYS observed on the real kernel, and the sock_fprog captured at the seam hook with the program compiled in the parent"
+	ctx.Cov["rule"] = "states = policies of probe scope S8 over {getpgrp,getppid,getuid,geteuid,getgid,getegid} (names-only with 1-2 groups and 4 actions; single conditions over 8 ops x 6 argument registers x boundary operands; AND lists, OR lists, conditional entries in two groups, kill_process behind a condition; with and without the whole remaining table as a >255-instruction allow group), each loaded by the real LoadFilter in a fresh child with flags in {0,tsync} and no_new_privs on/off, as root and as uid 65534; transitions = probe events: every probe syscall x every cell of the exact partition of the argument registers, issued with RawSyscall6 from the loading thread and from a second thread; the reference decision (model) is compared with errno / SIGSYS observed on the real kernel, and the sock_fprog captured at the seam hook with the program compiled in the parent"
 	ctx.Assumptions = []string{"probe syscalls ignore their arguments and always succeed when allowed", "refsem.Decide is the model; the kernel is the implementation", "only host architecture (x86_64) events can be issued"}
 	return ctx.Finish()
 }
 
 func c08One(ctx *evid.Ctx, a *refsem.Arch, j c08Job, maxKill int, children, events, kills *int64) {
 	pj := engine.ToJSON(a, j.pol, false)
-	rep := map[string]any{"policy": pj, "flags": j.flags, "nnp": j.nnp, "scope": j.label}
+	rep := map[string]any{"policy": pj, "flags": j.flags, "nnp": j.nnp, "scope": j.label, "unprivileged": j.unpriv}
 	insts, err, pan := engine.Compile(a, j.pol, false)
 	if err != nil || pan != nil {
 		ctx.Violation("C08:compile:"+j.label, fmt.Sprintf("probe-scope policy does not compile: %v %v", err, pan), rep)
@@ -238,7 +240,7 @@ func c08One(ctx *evid.Ctx, a *refsem.Arch, j c08Job, maxKill int, children, even
 			evT0 = append(evT0, toProbe([]cbpf.Event{k}, true)...)
 		}
 		sc.Ops = append(sc.Ops, histOp{Op: "probe", T: 0, Events: evT0})
-		hr := runHist(sc, false)
+		hr := runHist(sc, j.unpriv)
 		atomic.AddInt64(children, 1)
 		if hr.TimedOut || len(hr.Results) < 3 {
 			ctx.Flaky()
@@ -247,6 +249,9 @@ func c08One(ctx *evid.Ctx, a *refsem.Arch, j c08Job, maxKill int, children, even
 			return
 		}
 		ld := hr.Results[0]
+		if ld.Err != nil && j.unpriv && !j.nnp {
+			return // expected refusal (EACCES); whether it is reported properly is C09/C11's business
+		}
 		if ld.Err != nil {
 			ctx.Violation("C08:load-failed:"+j.label, "LoadFilter failed for a valid probe policy: "+*ld.Err, rep)
 			return
@@ -270,7 +275,7 @@ func c08One(ctx *evid.Ctx, a *refsem.Arch, j c08Job, maxKill int, children, even
 				}
 				atomic.AddInt64(events, 1)
 				if en != wantErrno {
-					r2 := map[string]any{"policy": pj, "flags": j.flags, "nnp": j.nnp, "event": e, "thread": who}
+					r2 := map[string]any{"policy": pj, "flags": j.flags, "nnp": j.nnp, "unprivileged": j.unpriv, "event": e, "thread": who}
 					ctx.Violation(fmt.Sprintf("C08:decision:%s:%s:%v", j.label, who, sent[i]), fmt.Sprintf("kernel answered errno %d, policy says %#x (expected errno %d) for nr %d args %x on %s", en, want, wantErrno, e.Nr, e.Args, who), r2)
 				}
 			}
